@@ -4,8 +4,8 @@ explosive), 2-D (axis = y) and 3-D (axis = z).
 
 The traced burn time (`Kenamond2.__init__` + `_run`; the code's `max`/`min` are kept as
 `max`/`min`) is the documented  t = min(t₁, t₂, max(t₃, t₄), t₅, t₆)  of `EPV.Spec.Burn.k2`
-on `EuclideanSpace ℝ (Fin n)` whenever the constructor accepts (`k2dN_eq_spec`), and the
-constructor's checks are exactly `K2Adm` (`k2dN_outcome`).  Consequently, under those checks,
+on `EuclideanSpace ℝ (Fin n)` whenever the constructor accepts (`EPV.Burn.k2dN_eq_spec`), and the
+constructor's checks are exactly `K2Adm` (`EPV.Burn.k2dN_outcome`; both in EPV/Lemmas/BurnK2.lean).  Consequently, under those checks,
 
 * t ≥ min_i t_{d_i}                                               (`k2dN_ge_min`)
 * t(x_{d_i}) ≤ t_{d_i} for i = 1, 2, 4, 5 and t(x_{d_3}) = t_{d_3}   (`k2dN_at_detK_le`, `k2dN_at_det3`)
@@ -22,7 +22,7 @@ derivative-free Lipschitz bounds above are the consequence the property names.
 import EPV.Gen.K2d2
 import EPV.Gen.K2d3
 import EPV.Spec.Burn
-import EPV.Lemmas.BurnModels
+import EPV.Lemmas.BurnK2
 import EPV.Tactics
 
 set_option linter.all false
